@@ -6,7 +6,7 @@ Same contract as tools/extract.py: everything is read from the imported modules 
 nothing is copied from a previous run, the file is rewritten only when its content changes; honours CP_REPO and
 CP_LEAN.
 
-Emitted, for every concrete `FieldValueMultiple` subclass (in `__subclasses__` order):
+Emitted, for every concrete `FieldValueMultiple` subclass of the library (sorted by class name):
   * the list separator of its `_get_header_value_list_class()`,
   * its components in attribute order: attribute name, canonical directive name, kind (the nearest base class in
     common/field.py), whether the attribute has a default, and the NAME-MATCH MODE,
@@ -137,7 +137,8 @@ def tables():
     import attr
     field = _modules()
     out = []
-    for cls in all_subclasses(field.FieldValueMultiple):
+    # sorted by class name: `__subclasses__` order depends on the import order of the process that extracts
+    for cls in sorted(all_subclasses(field.FieldValueMultiple), key=lambda c: c.__name__):
         if inspect.isabstract(cls) or not attr.has(cls) or not cls.__module__.startswith('cryptoparser.'):
             continue                    # (the repository's tests define subclasses of their own)
         fields = attr.fields_dict(cls)
